@@ -57,6 +57,11 @@ func rebootPersistedStore(config *Config, log *zap.SugaredLogger, stats tally.Sc
 		}
 		if !ok {
 			log.With("key", key).Warn("Could not reboot blob from disk - its parent directory is there but the blob is missing")
+			// Drop what a crash in the middle of Create/Delete/eviction left behind, otherwise
+			// the leftover directory blocks re-creating and completing this key forever.
+			if err := os.RemoveAll(pather.dirPath(key, complete)); err != nil {
+				return nil, fmt.Errorf("remove leftovers of blob that could not be rebooted: %w", err)
+			}
 			continue
 		}
 		if b.complete && b.evictable {
@@ -171,6 +176,10 @@ func rebootIncompleteBlobSize(key string, pather *pather) (size uint64, ok bool,
 	blobSizeData, err := io.ReadAll(blobSizeF)
 	if err != nil {
 		return 0, false, fmt.Errorf("read blob size sidecar file: %w", err)
+	}
+	if len(blobSizeData) == 0 {
+		// The service crashed after creating the sidecar file, but before writing the size to it.
+		return 0, false, nil
 	}
 	blobSize, err := strconv.Atoi(string(blobSizeData))
 	if err != nil {
